@@ -50,13 +50,19 @@ var callbackConstructs = []struct{ name, src string }{
 	{"ipairs-index", `local o = setmetatable({}, {__index = function(t, i) if i == 1 then coroutine.yield("in") return "v" end return nil end}); for i, v in ipairs(o) do local x = v end`},
 	{"table-concat-index", `local o = setmetatable({}, {__index = function(t, i) coroutine.yield("in") return "v" end, __len = function() return 1 end}); local s = table.concat(o)`},
 	{"table-unpack-index", `local o = setmetatable({}, {__index = function(t, i) coroutine.yield("in") return "v" end}); local a = table.unpack(o, 1, 1)`},
+	{"pcall-body-tbc-inside", `pcall(function() local g2 <close> = mkc(2); coroutine.yield("in") end)`},
+	{"xpcall-body-tbc-inside", `xpcall(function() local g2 <close> = mkc(2); local g3 <close> = mkc(3); coroutine.yield("in") end, function(m) return m end)`},
+	{"nested-pcall-tbc-inside", `pcall(function() local g2 <close> = mkc(2); pcall(function() local g3 <close> = mkc(3); coroutine.yield("in") end) end)`},
+	{"callcontext-tbc-inside", `runtime.callcontext({kill = {cpu = 1000000}}, function() local g2 <close> = mkc(2); coroutine.yield("in") end)`},
+	{"sort-comparator-tbc-inside", `local first = true; local t = {3, 1, 2}; table.sort(t, function(a, b) if first then first = false; local g2 <close> = mkc(2); coroutine.yield("in") end return a < b end)`},
+	{"index-metamethod-tbc-inside", `local o = setmetatable({}, {__index = function(t, k) local g2 <close> = mkc(2); coroutine.yield("in") return 1 end}); local v = o.x`},
 	{"tbc-handler", `do local h <close> = setmetatable({}, {__close = function() coroutine.yield("in") end}) end`},
 	{"nested-wrap", `local inner = coroutine.wrap(function() coroutine.yield("x") return "y" end); inner(); coroutine.yield("in"); inner()`},
 }
 
 func callbackProgram(construct string, closeIt bool, wrap bool) string {
 	var b strings.Builder
-	b.WriteString(`local function mkc(id) return setmetatable({}, {__close = function(o, e) emit("close-handler", id, e == nil) end}) end
+	b.WriteString(`local function mkc(id) emit("declare", id) return setmetatable({}, {__close = function(o, e) emit("close-handler", id, e == nil) end}) end
 local co = coroutine.create(function(p)
   local guard <close> = mkc(1)
   emit("body", "start", p)
@@ -124,12 +130,18 @@ func callbacks(c *vp.Child) {
 			tv := out.TraceV
 			// locate the events
 			var closeHandlers, afterConstruct, rets int
+			declared, closedIDs := map[string]int{}, map[string]int{}
 			firstYielded := false
 			closeIdx, finalIdx := -1, -1
 			for i, ev := range tv {
 				switch {
+				case has(ev, "declare") && len(ev) >= 2:
+					declared[ev[1]]++
 				case has(ev, "close-handler"):
 					closeHandlers++
+					if len(ev) >= 2 {
+						closedIDs[ev[1]]++
+					}
 				case has(ev, "body", "after construct"):
 					afterConstruct++
 				case has(ev, "main", "first") && len(ev) >= 4 && ev[2] == "b:true" && ev[3] == `s:"in"`:
@@ -160,8 +172,13 @@ func callbacks(c *vp.Child) {
 			if len(final) < 3 || final[2] != `s:"dead"` {
 				fail("I1", "the coroutine is not dead at the end: "+strings.Join(final, " "))
 			}
-			if closeHandlers != 1 {
+			if closeHandlers < 1 {
 				fail("I2", fmt.Sprintf("the pending __close handler ran %d times", closeHandlers))
+			}
+			for id, n := range declared {
+				if closedIDs[id] != n {
+					fail("I2", fmt.Sprintf("to-be-closed value %s was declared %d times and its __close handler ran %d times by the time the coroutine was dead", id, n, closedIDs[id]))
+				}
 			}
 			// I3
 			for i := finalIdx + 1; i < len(tv); i++ {
